@@ -73,6 +73,12 @@ def lines(c):
 
 
 def impl_parts(c):
+    from ..ev1 import strict_ctx
+    with strict_ctx(len(c["s"]) % 3 == 1):        # a third of the strings under strict NumPy error state / warnings as errors
+        return _impl_parts(c)
+
+
+def _impl_parts(c):
     import cellpylib as cpl
     s = c["s"]
     out = ["ok " + fmt.vec([int(ch) for ch in cpl.binary_derivative(s)]),
@@ -99,6 +105,15 @@ def compare(c, a, b):
 
 
 def oracle(c):
+    from ..ev1 import strict_ctx
+    try:
+        with strict_ctx(len(c["s"]) % 3 == 1):    # same error state as impl(): a well-formed string must not raise under it
+            return _oracle(c)
+    except (FloatingPointError, Warning) as e:
+        return "a measure of the BiEntropy family raised %s: %s on the binary string %s (NumPy errors raised, warnings as errors)" % (type(e).__name__, e, c["s"])
+
+
+def _oracle(c):
     import cellpylib as cpl
     s = c["s"]
     n = len(s)
